@@ -4,7 +4,8 @@ Workload: generated dataclass hierarchies (2..5 classes, depth <= 3, <= 2 bases;
 package (the bases' module walked first or last), or spread over 2..3 top-level modules / packages that are loaded one
 after the other - a *loading session*: dependencies first, by one GriffeLoader or by one loader per step sharing the
 collections, the bases reached through every import form; occasionally a nested dataclass): every field form (plain, default, field() with every option, KW_ONLY marker,
-ClassVar, InitVar, properties, unannotated attributes, methods), every decorator spelling (@dataclass, @dataclass(),
+ClassVar, InitVar, properties, unannotated attributes, methods), field names bound more than once in a class body (second
+declaration, bare annotation, plain / chained / unpacking / augmented assignment, def, property, nested class, del), every decorator spelling (@dataclass, @dataclass(),
 @dataclasses.dataclass, aliased imports), every combination of the init / kw_only decorator arguments, frozen,
 hand-written __init__, undecorated subclasses, non-dataclass classes.
 Oracle: CPython executes the same source in this child (statement by statement, so a class CPython rejects is counted
@@ -37,7 +38,10 @@ RULE = ("seeded hierarchies of 2..5 classes C0..C4 (each with <=2 bases among ea
         "hand-written __init__ / undecorated), a decorator spelling among {@dataclass, @dataclass(), @dataclasses.dataclass, "
         "@dc, @d.dataclass} with random init/kw_only/frozen arguments, 0..5 fields drawn from {x: T, x: T = v, field(), "
         "field(default=), field(default_factory=), field(init=False), field(kw_only=True|False), field(repr=..), InitVar, "
-        "ClassVar, '_: KW_ONLY'} (35%: one field overrides an inherited one), plus properties, unannotated attributes, methods, "
+        "ClassVar, '_: KW_ONLY'} (35%: one field overrides an inherited one; 30% of the decorated classes bind the name of one of "
+        "their fields a second - 4%: third - time, anywhere after or before the declaration and on either side of the KW_ONLY marker: "
+        "a second declaration of any field form, a bare annotation, plain / chained / unpacking / augmented assignment, an "
+        "assigned field() call, def, property, nested class, del), plus properties, unannotated attributes, methods, "
         "__post_init__; additionally every (init, kw_only) in {absent,True,False}^2 is forced on the last class of a hierarchy "
         "in turn. distinct = digest of the sources; non-trivial = some accepted dataclass inherits from a dataclass and a "
         "keyword-only marker (KW_ONLY / kw_only=) occurs in the hierarchy")
@@ -48,7 +52,7 @@ LEVEL_TEXT = ("For every generated hierarchy the classes CPython accepts are com
               "'dataclass' label. Discrepancies are first passed through two mechanism classifiers (transformations of CPython's "
               "signature that reproduce a listed defect exactly); anything else is a violation.")
 LEVEL_NOTE = ("trusted: CPython 3.12 dataclasses + inspect.signature; default *values* are not compared (C02/C03 cover expressions), "
-              "only required-ness; string annotations / from __future__ import annotations are not generated; for dataclasses "
+              "only required-ness; conditional re-binding (if / try in a class body) is not generated; string annotations / from __future__ import annotations are not generated; for dataclasses "
               "without an own __init__ (init=False, undecorated subclasses) only the effective signature (Class.parameters vs the "
               "inherited __init__) is judged, not the presence of a member")
 TECHNIQUE = "runtime monitoring: differential oracle against CPython's dataclasses/inspect on the same source, after a real GriffeLoader load"
@@ -57,7 +61,9 @@ REQUIRED_COUNTERS = ["classes_accepted_by_cpython", "generated_inits_compared", 
                      "init_kw_only_combinations_seen", "kw_only_marker_classes", "initvar_fields_seen", "classvar_fields_seen",
                      "field_init_false_seen", "aliased_decorator_seen", "loading_sessions_judged", "cross_package_generated_inits_compared",
                      "cross_package_inherited_initvar_inits_compared", "cross_package_inherited_inits_compared",
-                     "generated_inits_with_base_in_later_module_compared"]
+                     "generated_inits_with_base_in_later_module_compared", "classes_with_rebound_field_compared",
+                     "fields_rebound_across_kw_only_marker_compared", "generated_inits_inheriting_rebound_field_compared",
+                     "classes_with_rebound_field_in_sessions_compared"]
 EXHAUSTIVE = {"quick": False, "thorough": False}
 ASSUMPTIONS = ["CPython 3.12's dataclasses module is the reference; classes it rejects (TypeError/ValueError at class creation) are outside the domain",
                "hierarchies are sampled (seeded); only the 9 init/kw_only decorator combinations are enumerated exhaustively (on the last class)",
@@ -74,7 +80,13 @@ F_DIAMOND = "C18-bases-contribute-own-fields-only"
 F_BARECV = "C18-unsubscripted-classvar-is-a-parameter"
 F_INHDEF = "C18-redeclared-field-inherits-class-attribute-default"
 F_LABEL = "C18-subclass-with-own-init-not-labelled"
-ALL_FINDINGS = [F_BARE, F_KWFALSE, F_OVERRIDE, F_INITFALSE, F_DIAMOND, F_BARECV, F_INHDEF, F_LABEL]
+F_RBPOS = "C18-rebound-field-positioned-at-first-binding"
+F_RBBARE = "C18-bare-reannotation-forgets-bound-value"
+F_RBDEF = "C18-field-rebound-by-def-or-class-dropped"
+F_DEL = "C18-del-of-field-default-ignored"
+F_RBLABELS = "C18-redeclared-field-keeps-merged-labels"
+F_UNPACK = "C18-default-bound-by-unpacking-assignment-ignored"
+ALL_FINDINGS = [F_BARE, F_KWFALSE, F_OVERRIDE, F_INITFALSE, F_DIAMOND, F_BARECV, F_INHDEF, F_LABEL, F_RBPOS, F_RBBARE, F_RBDEF, F_DEL, F_RBLABELS, F_UNPACK]
 
 KIND = {inspect.Parameter.POSITIONAL_ONLY: "positional-only", inspect.Parameter.POSITIONAL_OR_KEYWORD: "positional or keyword",
         inspect.Parameter.VAR_POSITIONAL: "variadic positional", inspect.Parameter.KEYWORD_ONLY: "keyword-only",
@@ -86,15 +98,75 @@ _SERIAL = itertools.count()
 
 # ------------------------------------------------------------------------------------------------
 # facts read from the text (independent of both implementations; used by the classifiers and the span check)
+def _field_kwargs(value) -> dict | None:  # noqa: ANN001
+    if isinstance(value, ast.Call) and ast.unparse(value.func) in FIELD_CALLEES:
+        return {k.arg: ast.unparse(k.value) for k in value.keywords}
+    return None
+
+
+PROPERTY_DECORATORS = ("property", "cached_property", "functools.cached_property")
+
+
+def bindings_of(node: ast.ClassDef) -> list[dict]:
+    """Every statement of the class body that binds / unbinds a plain name, in order:
+    {kind: ann | assign | aug | def | property | class | del, name, ann, valued, field_kwargs, unpacked (target of `a, b = ...`)}."""
+    out: list[dict] = []
+
+    def add(kind: str, name: str, ann: str | None = None, valued: bool = False, fk: dict | None = None, unpacked: bool = False) -> None:  # noqa: FBT001, FBT002, PLR0913
+        out.append({"kind": kind, "name": name, "ann": ann, "valued": valued, "field_kwargs": fk, "unpacked": unpacked})
+
+    for st in node.body:
+        if isinstance(st, ast.AnnAssign) and isinstance(st.target, ast.Name):
+            add("ann", st.target.id, ast.unparse(st.annotation), st.value is not None, _field_kwargs(st.value))
+        elif isinstance(st, ast.Assign):
+            for tgt in st.targets:
+                if isinstance(tgt, ast.Name):
+                    add("assign", tgt.id, None, True, _field_kwargs(st.value))
+                elif isinstance(tgt, (ast.Tuple, ast.List)):
+                    for el in tgt.elts:
+                        if isinstance(el, ast.Name):
+                            add("assign", el.id, None, True, None, unpacked=True)
+        elif isinstance(st, ast.AugAssign) and isinstance(st.target, ast.Name):
+            add("aug", st.target.id)
+        elif isinstance(st, (ast.FunctionDef, ast.AsyncFunctionDef)):
+            decs = [ast.unparse(d) for d in st.decorator_list]
+            prop = any(d in PROPERTY_DECORATORS or d.endswith((".setter", ".getter", ".deleter")) for d in decs)
+            add("property" if prop else "def", st.name, ast.unparse(st.returns) if prop and st.returns else None)
+        elif isinstance(st, ast.ClassDef):
+            add("class", st.name)
+        elif isinstance(st, ast.Delete):
+            for tgt in st.targets:
+                if isinstance(tgt, ast.Name):
+                    add("del", tgt.id)
+    return out
+
+
+def rebound_fields(fc: dict) -> dict[str, list[dict]]:
+    """annotated names of a class body that are bound (or unbound) by more than one statement -> their bindings, with positions."""
+    per: dict[str, list[dict]] = {}
+    for idx, b in enumerate(fc["bindings"]):
+        per.setdefault(b["name"], []).append({**b, "idx": idx})
+    return {n: bs for n, bs in per.items() if len(bs) > 1 and any(b["kind"] == "ann" for b in bs)}
+
+
+def binding_form(b: dict) -> str:
+    if b["kind"] != "ann":
+        return ("unpack" if b["unpacked"] else b["kind"]) + ("=field" if b["field_kwargs"] is not None else "")
+    head = b["ann"].split("[")[0].split(".")[-1]
+    return "ann" + (":" + head if head in ("ClassVar", "InitVar", "KW_ONLY") else "") + (
+        "=field" if b["field_kwargs"] is not None else "=" if b["valued"] else "")
+
+
 def analyse(files: dict[str, str]) -> dict[str, dict]:
-    """class name -> {decorated, dec_kwargs, fields: [{name, ann, value, field_kwargs, after_marker}], init_span}."""
+    """class name -> {decorated, dec_kwargs, fields: [{name, ann, value, field_kwargs, after_marker}], bindings, init_span}."""
     out: dict[str, dict] = {}
 
     def visit(body, rel):  # noqa: ANN001, ANN202
         for node in body:
             if not isinstance(node, ast.ClassDef):
                 continue
-            info = {"file": rel, "decorated": False, "dec_kwargs": {}, "dec_text": None, "fields": [], "init_span": None, "lineno": node.lineno}
+            info = {"file": rel, "decorated": False, "dec_kwargs": {}, "dec_text": None, "fields": [], "init_span": None, "lineno": node.lineno,
+                    "bindings": bindings_of(node)}
             for dec in node.decorator_list:
                 callee = dec.func if isinstance(dec, ast.Call) else dec
                 if ast.unparse(callee) in DATACLASS_CALLEES:
@@ -110,9 +182,7 @@ def analyse(files: dict[str, str]) -> dict[str, dict]:
                         marker = True
                         info["fields"].append({"name": st.target.id, "ann": ann, "value": None, "field_kwargs": None, "after_marker": marker})
                         continue
-                    fk = None
-                    if isinstance(st.value, ast.Call) and ast.unparse(st.value.func) in FIELD_CALLEES:
-                        fk = {k.arg: ast.unparse(k.value) for k in st.value.keywords}
+                    fk = _field_kwargs(st.value)
                     info["fields"].append({"name": st.target.id, "ann": ann, "value": ast.unparse(st.value) if st.value else None,
                                            "field_kwargs": fk, "after_marker": marker})
                 elif isinstance(st, ast.FunctionDef) and st.name == "__init__":
@@ -393,35 +463,96 @@ SWITCHES = [
     ("bare_classvar", F_BARECV),        # an un-subscripted `x: ClassVar` is an ordinary field
     ("removed_override", F_OVERRIDE),   # redeclaring an inherited field as ClassVar / init=False does not remove the parameter
     ("inherited_default", F_INHDEF),    # a field redeclared without a value does not pick up the inherited class attribute as default
+    # a name bound more than once in one class body (Griffe keeps ONE member per name: position of the first binding, object of the last)
+    ("rebind_position", F_RBPOS),       # the field sits where the name was first bound (plain assignment / def / class), not first annotated
+    ("bare_forgets", F_RBBARE),         # a bare `x: T` after an assignment to x forgets the assigned value
+    ("rebound_by_def", F_RBDEF),        # def / class / property statements binding a field's name are not seen as its default: bound last,
+                                        # the field is no parameter at all; bound in between, the annotation (and the default) are lost
+    ("del_ignored", F_DEL),             # `del x` in the class body is ignored: the deleted default stays
+    ("labels_merged", F_RBLABELS),      # ClassVar-ness / property-ness follow the merged labels of every declaration, not the last annotation
+    ("unpacking_ignored", F_UNPACK),    # `x, y = 1, 2` binds nothing (tuple / list targets are not visited)
 ]
+REBIND_SWITCHES = {"rebind_position", "bare_forgets", "rebound_by_def", "del_ignored", "labels_merged", "unpacking_ignored"}
 
 
-def own_decls(cname: str, facts: dict, tg: set, cpv: dict) -> list[dict]:
+def _is_classvar(ann: str, tg: set) -> bool:
+    return ann.split("[")[0] in ("ClassVar", "typing.ClassVar") and not ("bare_classvar" in tg and "[" not in ann)
+
+
+def own_decls(cname: str, facts: dict, tg: set, cpv: dict) -> list[dict]:  # noqa: C901, PLR0912
+    """The fields a class body declares, from the sequence of its binding statements.
+
+    CPython (all switches off): a field's position is that of the *first annotation* of its name and its type the *last*
+    annotation (``__annotations__`` is a dict); its default is whatever the name is bound to when the body ends (last assignment,
+    def or class statement; nothing after ``del``; a bare annotation binds nothing); the KW_ONLY marker splits the fields in
+    annotation order."""
     fc = facts[cname]
     # dataclasses reads a field's default with getattr(cls, name): a field redeclared *without* a value picks up whatever class
     # attribute of that name an earlier class of the MRO left behind (typically the inherited field's default)
     inherited_attrs = set() if "inherited_default" in tg else {a for b in cpv[cname]["mro"][1:] for a in cpv[b]["class_attrs"]}
     if "init_false_misread" in tg and fc["dec_kwargs"].get("init") == "False":
         return []
+    state: dict[str, dict] = {}
+    for idx, b in enumerate(fc["bindings"]):
+        kind = b["kind"]
+        if kind == "aug" or (b["unpacked"] and "unpacking_ignored" in tg):
+            continue        # rebinds a name that is bound already (NameError otherwise): neither position nor default-ness change
+        s = state.setdefault(b["name"], {"first_bind": None, "first_ann": None, "ann": None, "attr": None, "labels": set(), "last": None, "carried_ann": None})
+        if kind == "del":
+            if "del_ignored" not in tg:
+                s["attr"] = None
+            continue
+        if s["first_bind"] is None:
+            s["first_bind"] = idx
+        s["last"] = kind
+        if kind in ("def", "class", "property"):
+            s["attr"] = ("object", None)
+            s["labels"] = {"property"} if kind == "property" else set()
+            s["carried_ann"] = b["ann"]     # a function / class member has no annotation to hand on (a property: its return annotation)
+            continue
+        if kind == "ann":
+            if s["first_ann"] is None:
+                s["first_ann"] = idx
+            s["ann"] = s["carried_ann"] = b["ann"]
+        if b["valued"]:
+            s["attr"] = ("value", b["field_kwargs"])
+        elif s["attr"] is not None and ("bare_forgets" if s["attr"][0] == "value" else "rebound_by_def") in tg:
+            s["attr"] = None        # Griffe: the new attribute has no value (and a function / class never counted as one)
+        # the labels Griffe's visitor gives the attribute of this statement, merged with those of the member it replaces
+        if kind == "ann" and _is_classvar(b["ann"], tg):
+            s["labels"] |= {"class"}
+        else:
+            s["labels"] |= {"class", "instance"} if b["valued"] else {"instance"}
+    order = "first_bind" if "rebind_position" in tg else "first_ann"
+    declared = sorted(((n, s) for n, s in state.items() if s["first_ann"] is not None), key=lambda ns: ns[1][order])
     out = []
     ctx_kw = fc["dec_kwargs"].get("kw_only") == "True"
-    for f in fc["fields"]:
-        ann = f["ann"]
+    marker = False
+    for name, s in declared:
+        ann = s["ann"]
         if ann.endswith("KW_ONLY"):
+            marker = True
             continue
-        kw = f["field_kwargs"]
-        classvar = ann.split("[")[0] in ("ClassVar", "typing.ClassVar") and not ("bare_classvar" in tg and "[" not in ann)
+        if "rebound_by_def" in tg and (s["last"] in ("def", "class", "property") or s["carried_ann"] is None):
+            continue        # the member is a function / class / property now, or an attribute that lost its annotation to one
+        if s["last"] in ("def", "class", "property"):
+            classvar = _is_classvar(ann, tg)
+        elif "labels_merged" in tg:
+            classvar = "property" in s["labels"] or ("class" in s["labels"] and "instance" not in s["labels"])
+        else:
+            classvar = _is_classvar(ann, tg)
+        kw = s["attr"][1] if s["attr"] is not None and s["attr"][0] == "value" else None
         init = not (kw is not None and kw.get("init") == "False")
         if (classvar or not init) and "removed_override" in tg:
             continue
         if kw is None:
-            has_default = f["value"] is not None or f["name"] in inherited_attrs
+            has_default = s["attr"] is not None or name in inherited_attrs
         else:
             has_default = "default" in kw or "default_factory" in kw or (kw == {} and "bare_field" in tg)
-        context = ctx_kw or f["after_marker"]
+        context = ctx_kw or marker
         explicit = None if kw is None or "kw_only" not in kw else kw["kw_only"] == "True"
         kw_only = context if explicit is None else (explicit or (context and "kw_false" in tg))
-        out.append({"name": f["name"], "classvar": classvar, "init": init, "required": not has_default, "kw_only": kw_only})
+        out.append({"name": name, "classvar": classvar, "init": init, "required": not has_default, "kw_only": kw_only})
     return out
 
 
@@ -483,6 +614,8 @@ def classify(cname: str, g: dict, cpv: dict, facts: dict, rec) -> str | None:  #
     from vf.core.rec import known_findings
 
     names = [n for n, f in SWITCHES if known_findings().get(f, {}).get("status") == "known"]
+    if not any(rebound_fields(facts[k]) for k in cp["mro"]):
+        names = [n for n in names if n not in REBIND_SWITCHES]      # they change nothing unless some name is bound twice in a body
     for r in range(1, len(names) + 1):
         for combo in itertools.combinations(names, r):
             tg = set(combo)
@@ -547,6 +680,21 @@ def judge_case(rec, case: dict) -> None:  # noqa: ANN001, C901, PLR0912, PLR0915
                     rec.count("field_init_false_seen")
         if cp["is_dc"] and any(cp["decorated"].get(b) for b in cp["mro"][1:]):
             accepted_dc_with_dc_parent = True
+        # names bound more than once in a class body: here, or in a dataclass this one inherits its fields from
+        if fc["decorated"]:
+            own_rebound = rebound_fields(fc)
+            if own_rebound:
+                rec.count("classes_with_rebound_field_compared")
+                if session:
+                    rec.count("classes_with_rebound_field_in_sessions_compared")
+                marker_at = [i for i, b in enumerate(fc["bindings"]) if b["kind"] == "ann" and b["ann"].endswith("KW_ONLY")]
+                for bs in own_rebound.values():
+                    rec.add_to_set("rebinding_forms", ">".join(binding_form(b) for b in bs))
+                    if any(bs[0]["idx"] < m < bs[-1]["idx"] for m in marker_at):
+                        rec.count("fields_rebound_across_kw_only_marker_compared")
+            if cp["own_init"] and fc["init_span"] is None and any(
+                    cp["decorated"].get(b) and rebound_fields(facts[b]) for b in cp["mro"][1:]):
+                rec.count("generated_inits_inheriting_rebound_field_compared")
         if package == "pk" and cp["own_init"] and fc["init_span"] is None and any(
                 cp["decorated"].get(b) and facts[b]["file"] > fc["file"] for b in cp["mro"][1:]):
             rec.count("generated_inits_with_base_in_later_module_compared")     # the subclass is processed before its base
